@@ -85,6 +85,20 @@ DataOp(g, v) ==
        IF G = {} THEN g1
        ELSE Blank([g1 EXCEPT !.present = @ \ G, !.groups = @ \ {GroupOf(g, v)}], G)
 
+(* ----------------------------- reading everything out ----------------- *)
+\* C06 ("collection gives capacity back ... no matter how many groups have lived and died before"): what the caller can
+\* always do.  Read every unread datum of a group (after putting one on its least member if it holds none): the group
+\* dies.  DrainAll does that for every group; Sodg!Recoverable states that from EVERY reachable state it leaves no group
+\* alive, removes exactly the grouped vertices and leaves the ungrouped ones as they were.
+MinOf(S) == CHOOSE x \in S : \A y \in S : x <= y
+RECURSIVE ReadOut(_, _)
+ReadOut(g, S) == IF S = {} THEN g ELSE LET v == MinOf(S) IN ReadOut(DataOp(g, v), S \ {v})
+DrainGroup(g, G) == LET g1 == IF Unread(g) \cap G = {} THEN PutOp(g, MinOf(G), "drain") ELSE g
+                    IN ReadOut(g1, Unread(g1) \cap G)
+RECURSIVE DrainAll(_)
+DrainAll(g) == IF g.groups = {} THEN g
+               ELSE LET G == CHOOSE X \in g.groups : \A Y \in g.groups : MinOf(X) <= MinOf(Y) IN DrainAll(DrainGroup(g, G))
+
 (* ----------------------------- next_id -------------------------------- *)
 FreeAbove(g) == {i \in IdsOf(g) : i >= g.nextv /\ i \notin g.present}
 NextIdOk(g) == FreeAbove(g) # {}
